@@ -151,6 +151,28 @@ fn sequence_doc(
     skip_first_leading: bool,
     continuation_nest: usize,
 ) -> Doc {
+    sequence_doc_with(
+        trivia,
+        sequence,
+        skip_first_leading,
+        false,
+        continuation_nest,
+    )
+}
+
+/// The consequence of a branch: it starts on the `=>` line, so blank lines before its first chain
+/// have no line to separate — kept, they would force a break and then vanish (not idempotent).
+fn sequence_doc_after_arrow(trivia: &Trivia, sequence: &Sequence, continuation_nest: usize) -> Doc {
+    sequence_doc_with(trivia, sequence, false, true, continuation_nest)
+}
+
+fn sequence_doc_with(
+    trivia: &Trivia,
+    sequence: &Sequence,
+    skip_first_leading: bool,
+    skip_first_blanks: bool,
+    continuation_nest: usize,
+) -> Doc {
     // Comma and newline are synonymous step separators, so a broken sequence uses a bare newline
     // (the lighter form) and only the inline form needs the comma.
     let separator = pretty::concat(vec![
@@ -163,6 +185,8 @@ fn sequence_doc(
     for (index, chain) in sequence.chains.iter().enumerate() {
         let leading = if index == 0 && skip_first_leading {
             pretty::nil()
+        } else if index == 0 && skip_first_blanks {
+            trivia.leading_doc_without_initial_blanks(chain.span)
         } else {
             trivia.leading_doc(chain.span)
         };
@@ -254,7 +278,7 @@ fn branch_doc(trivia: &Trivia, branch: &Branch, multi_branch: bool) -> Doc {
         }
         Some(consequence) => {
             let condition = sequence_doc(trivia, &branch.condition, multi_branch, nest);
-            let body = sequence_doc(trivia, consequence, false, nest);
+            let body = sequence_doc_after_arrow(trivia, consequence, nest);
             let body = wrap_breaking_body(consequence, body, multi_branch);
             // A guard is normally flattened onto one line so a long consequence does not push it onto
             // `~>` lines — but not when it carries a comment or is itself a breaking pipeline (which
@@ -907,6 +931,19 @@ impl Trivia {
             .map_or_else(pretty::nil, |items| trivia_doc(items))
     }
 
+    /// Like [`Trivia::leading_doc`], minus the blank lines the run starts with.
+    fn leading_doc_without_initial_blanks(&self, span: Spanned) -> Doc {
+        span.get()
+            .and_then(|span| self.leading.get(&span.offset))
+            .map_or_else(pretty::nil, |items| {
+                let first = items
+                    .iter()
+                    .position(|item| !matches!(item, TriviaItem::Blank))
+                    .unwrap_or(items.len());
+                trivia_doc(&items[first..])
+            })
+    }
+
     /// The doc for comments trailing the node starting at `span`: each is deferred to the end of the
     /// node's last line (a line suffix) and forces the surrounding construct to break so following
     /// code is not commented out. `nil` when there is none.
@@ -960,6 +997,9 @@ fn scan_trivia(source: &str) -> Vec<Scanned> {
     let mut escaped = false;
     let mut line_start = 0usize;
     let mut line_blank = true;
+    // Blank lines before the first code or comment of the file lead nothing: `collapse_blanks` would
+    // drop them anyway, but only after they had forced the first statement to break.
+    let mut seen_content = false;
     while let Some((index, c)) = chars.next() {
         if in_string {
             match c {
@@ -978,9 +1018,10 @@ fn scan_trivia(source: &str) -> Vec<Scanned> {
         }
         match c {
             '\n' => {
-                if line_blank {
+                if line_blank && seen_content {
                     out.push(Scanned::Blank(line_start));
                 }
+                seen_content |= !line_blank;
                 line_start = index + 1;
                 line_blank = true;
             }
